@@ -13,11 +13,11 @@ for d in sorted(glob.glob(os.path.join(VERIF, "seeded", "S*"))):
     extra = f"; other VERIF_SEEDs: {sum(1 for r in seeds if r == 1)}/{len(seeds)} caught" if seeds else ""
     rows.append((m["id"], m["property"], m["needs_to_manifest"], "; ".join(res) + extra))
 out = ["\n### 10.5 Seeded breaking changes (written by sub-agents that saw only the property text)\n",
-       "Four rounds of sub-agents (round 2-4 were told the mechanisms of the earlier rounds and asked for different ones). Each change was",
+       "Eleven rounds of sub-agents (from round 2 on they were told the mechanisms of the earlier rounds and asked for different ones; rounds 8-11 were also told what the harness varies and asked for something it is likely to miss). Each change was",
        "confirmed in its scratch worktree (54 tests pass with it; its demonstration exits 1 with and 0 without it) and is archived as",
        "`seeded/<id>/{patch.diff, demo_break.py, meta.json}`. Checks are run against a scratch copy of `/repo` with the patch applied",
        "(`tools/seeded.py run [--seeds 1,2,3]`); two of them were also checked through `git -C /repo apply` / `checkout -- .`.",
-       "Result column = latest quick-tier result recorded in meta.json.\n",
+       "Result column = latest result recorded in meta.json (quick tier; `@thorough` = the one case of the thorough tier that reaches it, run on its own).\n",
        "| id | property | needs, in order to manifest | quick-tier result |", "|----|----------|------------------------------|-------------------|"]
 for r in rows:
     out.append(f"| {r[0]} | {r[1]} | {r[2]} | {r[3]} |")
